@@ -21,7 +21,8 @@ def rule_bsearch(run, fx, rule, select=None, floors=True, floor_n=0):
             if not p.endswith(SEARCHES):
                 continue
             n += 1
-            key = "bsearch|%s|%s" % (b.root, p.split("::")[-1])
+            # the key names the function, not the variant of the search: binary_search and binary_search_by(|x| x.cmp(&k)) are one site
+            key = "bsearch|%s" % b.root
             run.fail(rule, key, "%s calls %s: the receiver must be ordered by the searched key (a sorted font table per the specification, or sorted by that key "
                      "since it was last changed); this site has not been audited" % (b.path, p.split("::")[-1]), b.loc(t), ledger="bsearch")
     if floors and floor_n:
